@@ -611,6 +611,8 @@ type MemberAccessExpression struct {
 	Member       string           `json:"member,omitempty"`
 	Kind         MemberAccessKind `json:"kind"`
 	ResolvedType Type             `json:"-"`
+	// true when the member is a computed field whose expression yields a temporary value
+	ComputedFieldIsValue bool `json:"-"`
 }
 
 func (e *MemberAccessExpression) _expression() {}
@@ -618,7 +620,11 @@ func (e *MemberAccessExpression) GetResolvedType() Type {
 	return e.ResolvedType
 }
 func (e *MemberAccessExpression) IsReference() bool {
-	return true
+	if e.ComputedFieldIsValue {
+		return false
+	}
+	// a member of a temporary is itself a temporary
+	return e.Target == nil || e.Target.IsReference()
 }
 
 type SubscriptExpression struct {
@@ -633,7 +639,8 @@ func (e *SubscriptExpression) GetResolvedType() Type {
 	return e.ResolvedType
 }
 func (e *SubscriptExpression) IsReference() bool {
-	return true
+	// an element of a temporary is itself a temporary
+	return e.Target == nil || e.Target.IsReference()
 }
 
 type SubscriptArgument struct {
